@@ -311,7 +311,7 @@ def run(ctx):
         if key not in seen:
             seen.add(key)
             uniq.append(s)
-    long_shapes = uniq[:ctx.pick(2500, 40000)]
+    long_shapes = uniq[:ctx.pick(2500, 25000)]
     ctx.cov['shapes_exhaustive'] = nexh
     ctx.cov['shapes_exhaustive_max_tokens'] = ctx.pick(5, 6)
     ctx.cov['shapes_simulated_longer'] = len(long_shapes)
@@ -328,7 +328,7 @@ def run(ctx):
                            'listed': list(relist(d, b'\x00\xc0\xde\x0a\x00:' + tok)), 'text': kw})
     nkw = len(events)
     # ---- lines ----
-    per = ctx.pick(3, 7)
+    per = ctx.pick(3, 5)
     for (shape, seprule) in shapes + long_shapes:
         kset = set(shape)
         for i in range(per if len(shape) <= ctx.pick(5, 6) else 1):
@@ -336,7 +336,7 @@ def run(ctx):
             e = gen.line(d, shape, seprule)
             events.append(e)
     # ---- free-form literals ----
-    nlit = ctx.pick(1500, 30000)
+    nlit = ctx.pick(1500, 20000)
     for i in range(nlit):
         d = DIALECTS[i % 3]
         cls = rng.choice(['single', 'double', 'single', 'double', 'digit', 'byte', 'int', 'hex', 'oct'])
